@@ -45,6 +45,8 @@ META = {
             "Accounting identities, histogram totals against an own classification, marginal consistency, and conservation/identity/composition of re-binning on irregular and degenerate binnings.", "3 C14"),
     "C15": ("exploration", "runtime monitoring: closed-form oracle (normal overlap integral) judged relatively, limit, monotonicity and convergence monitors",
             "Every computed failure probability between 1e-12 and 1-1e-12 is compared relatively with the closed form; the arbitrary-density variant must converge under grid refinement.", "3 C15"),
+    "C16": ("exploration", "runtime monitoring: inverse/derivative/consistency relation monitors and an independent formula oracle on the real material-law classes",
+            "Round trips, oddness, monotonicity, numerical derivative, Masing doubling, hysteresis closure, Hooke consistency between 1D/2D/3D laws and exact true-stress conversions over generated parameter sets; arguments generated through the strain.", "3 C16"),
     "C03": ("exploration", "runtime monitoring: metamorphic relation monitors between executions (refinement, negation, "
             "affine map, NaN insertion, Series index types), sanitizer replays",
             "Relations between pairs of real executions, each with its own counter; ties that rounding may flip are "
